@@ -217,19 +217,30 @@ class CallsMixin:
             return self.pymap_get(sv, args[0], st)
         raise OutOfSubset(f"method {n}")
 
-    def apply_rx_facts(self, rx: RxSym, line):
+    def apply_rx_facts(self, rx: RxSym, line=None):
+        """Capture facts proved by rxvc for the shipped pattern, as universally quantified
+        axioms over all lines (triggered on the group term)."""
+        key = ("rxfacts", rx.pattern)
+        if key in self.ctx.spec_cache:
+            return
+        self.ctx.spec_cache[key] = True
+        opt = _optional_groups(rx.pattern)
         for fact in self.reg.rx_facts.get(rx.pattern, []):
             g, kind = fact[0], fact[1]
-            gv = rx.group[g](line)
-            pre = rx.match(line)
-            if g in _optional_groups(rx.pattern):
-                pre = z3.And(pre, z3.Not(rx.group_none[g](line)))
+            l = z3.String(V.fresh_name("rxl"))
+            gv = rx.group[g](l)
+            pre = rx.match(l)
+            if g in opt:
+                pre = z3.And(pre, z3.Not(rx.group_none[g](l)))
             if kind == "digits":
-                self.ctx.axioms.append(z3.Implies(pre, z3.And(DECOK(gv), PYINT(gv) >= 0)))
+                body = z3.And(DECOK(gv), PYINT(gv) >= 0)
             elif kind == "range":
-                self.ctx.axioms.append(z3.Implies(pre, z3.And(DECOK(gv), PYINT(gv) >= fact[2], PYINT(gv) <= fact[3])))
+                body = z3.And(DECOK(gv), PYINT(gv) >= fact[2], PYINT(gv) <= fact[3])
             elif kind == "oneof":
-                self.ctx.axioms.append(z3.Implies(pre, z3.Or([gv == z3.StringVal(s) for s in fact[2]])))
+                body = z3.Or([gv == z3.StringVal(s) for s in fact[2]])
+            else:
+                continue
+            self.ctx.axioms.append(z3.ForAll([l], z3.Implies(pre, body), patterns=[gv]))
             self.ctx.notes.append(f"rx-fact used: {rx.pattern!r} group {g} {kind}")
 
     # ------------------------------------------------------------------ builtins
@@ -937,13 +948,14 @@ class CallsMixin:
                 raise BindingLost(f"contract {c.name}: parameter {p} not in call")
             v = bound[p]
             if hasattr(sh, "get"):
-                env[p] = v
+                # concrete parameter: use the contract's own object (equal tuples are identified)
+                env[p] = V.vconc(sh.get()) if isinstance(v.shape, ConcS) and isinstance(v.d, tuple) else v
                 continue
             try:
                 env[p] = V.coerce(self.as_sym(v), sh)
             except V.ShapeError as e:
                 env[p] = self.narrow(self.as_sym(v), sh, st, c, p)
-        extra = set(bound) - set(c.params)
+        extra = {p for p in set(bound) - set(c.params) if not isinstance(bound[p].shape, NoneS)}
         if extra:
             raise BindingLost(f"contract {c.name}: call binds {sorted(extra)} not in contract params")
         mod = c.key.split(":")[0]
@@ -952,6 +964,10 @@ class CallsMixin:
         for gname, gsh in c.ghost_results.items():
             env[gname] = V.fresh(gsh, gname)
             st.assume(Q.deep_wf(self, env[gname]))
+        # `_warnings` in a callee clause is the number of warnings logged by that call
+        wcount = z3.Int(V.fresh_name("warnings"))
+        env["_warnings"] = V.vint(wcount)
+        st.pc.append(wcount == 0 if c.is_silent else wcount >= 0)   # fresh variable: unconditional
         saved_reindex = getattr(self, "reindex", None)
         self.reindex = [v.view[1] for v in env.values() if isinstance(v, Val) and v.view is not None] or None
         try:
@@ -1001,11 +1017,11 @@ class CallsMixin:
                 self.side.append(Outcome("raise", f, exc=exc))
         for name, text in c.ensures:
             st.assume(self.truth(self.spec_eval(text, env, st, mod, c), st))
-        if c.logs is not None:
-            w = st.lookup("_warnings")
-            if w is not None:
-                lv = self.spec_eval(c.logs, env, st, mod, c)
-                st.holder("_warnings").vars["_warnings"] = V.vint(w.d + self._int(self.as_sym(lv)))
+        w = st.lookup("_warnings")
+        if w is not None and not self.spec_mode and not c.is_silent:
+            g = st.guard_cond()
+            inc = env["_warnings"].d if g is None else z3.If(g, env["_warnings"].d, 0)
+            st.holder("_warnings").vars["_warnings"] = V.vint(w.d + inc)
         self.last_ghost_results = {g: env[g] for g in c.ghost_results}
         return res
 
